@@ -1,4 +1,6 @@
+mod c02t;
 mod c03;
+mod c06t;
 mod c04;
 mod c05;
 mod c07;
@@ -40,7 +42,9 @@ fn main() {
     let seed: u64 = std::env::var("VERIF_SEED").ok().and_then(|s| s.parse().ok()).unwrap_or(0);
     let cmd = args.get(1).map(|s| s.as_str()).unwrap_or("");
     let sink = match cmd {
+        "c02t" => c02t::run(&tier, seed),
         "c03" => c03::run(&tier, seed),
+        "c06t" => c06t::run(&tier, seed),
         "c04" => c04::run(&tier, seed),
         "c05" => c05::run(&tier, seed),
         "c07" => c07::run(&tier, seed),
